@@ -23,6 +23,13 @@ async fn run_lines(lines: &[String], work: &PathBuf, stats: &mut Stats) -> Vec<S
                     w.cleanup();
                 }
                 world = None;
+                if let Some(b) = bench.as_mut() {
+                    if let Some(p) = b.peer.take() {
+                        let folder = p.folder.clone();
+                        drop(p);
+                        let _ = std::fs::remove_dir_all(folder);
+                    }
+                }
                 bench = None;
                 let id = kv.get("id").and_then(|v| v.parse::<u64>().ok());
                 let keys = kv.get("keys").and_then(|v| v.parse::<u64>().ok());
@@ -36,7 +43,9 @@ async fn run_lines(lines: &[String], work: &PathBuf, stats: &mut Stats) -> Vec<S
                             discret::verif_hooks::uid::set_sequential(1);
                         }
                         if kv.get("mode").map(|m| m == "fn").unwrap_or(false) {
-                            bench = Some(bench::Bench::new(id, keys, dmax));
+                            let mut b = bench::Bench::new(id, keys, dmax);
+                            b.peer_wanted = kv.get("peer").map(|m| m == "1").unwrap_or(false);
+                            bench = Some(b);
                         } else {
                             world = Some(World::new(work.clone(), id, keys, dmax));
                         }
@@ -51,6 +60,7 @@ async fn run_lines(lines: &[String], work: &PathBuf, stats: &mut Stats) -> Vec<S
             }
             k if bench.is_some() => {
                 let b = bench.as_mut().unwrap();
+                b.outbox = None;
                 let r = match k {
                     "rmut" => b.op_rmut(&kv),
                     "robs" => b.op_robs(&kv),
@@ -62,6 +72,15 @@ async fn run_lines(lines: &[String], work: &PathBuf, stats: &mut Stats) -> Vec<S
                     "delref" => b.op_delref(&kv),
                     "deladm" => b.op_deladm(&kv),
                     _ => "bad-op".into(),
+                };
+                let r = if k == "rmut" {
+                    let p = b.sync_room_to_peer().await;
+                    format!("{}{}", r, p)
+                } else if matches!(k, "new" | "upd" | "nest" | "null" | "del" | "delref") && r != "bad-op" {
+                    let p = b.feed_peer().await;
+                    format!("{}{}", r, p)
+                } else {
+                    r
                 };
                 stats.inc(&format!("op.{}", k));
                 let cls = r.split(' ').next().unwrap_or("").to_string();
@@ -93,6 +112,13 @@ async fn run_lines(lines: &[String], work: &PathBuf, stats: &mut Stats) -> Vec<S
     }
     if let Some(w) = world.as_mut() {
         w.cleanup();
+    }
+    if let Some(b) = bench.as_mut() {
+        if let Some(p) = b.peer.take() {
+            let folder = p.folder.clone();
+            drop(p);
+            let _ = std::fs::remove_dir_all(folder);
+        }
     }
     out
 }
